@@ -666,7 +666,69 @@ func (c *fnCtx) roTableLoad(ld *ssa.UnOp) (Lin, bool) {
 }
 
 // linLen returns the length of a slice/string/array(-pointer) value as a Lin.
+// canonLoad maps repeated loads of one element of a slice parameter (p[k], constant k) to the
+// first such load, when nothing in the function stores into p's elements and p is not handed to
+// a call before the later load: go/ssa does not CSE them, but they read the same value.
+func (c *fnCtx) canonLoad(v ssa.Value) ssa.Value {
+	u, ok := v.(*ssa.UnOp)
+	if !ok || u.Op != token.MUL {
+		return v
+	}
+	ia, ok := u.X.(*ssa.IndexAddr)
+	if !ok {
+		return v
+	}
+	p, ok := ia.X.(*ssa.Parameter)
+	k, isK := constInt(ia.Index)
+	if !ok || !isK {
+		return v
+	}
+	var rep *ssa.UnOp
+	var cands []*ssa.UnOp
+	clean := true
+	eachInstr(c.fn, func(in ssa.Instruction) {
+		switch x := in.(type) {
+		case *ssa.Store:
+			if a, ok := x.Addr.(*ssa.IndexAddr); ok && a.X == ssa.Value(p) {
+				clean = false
+			}
+		case *ssa.UnOp:
+			if x.Op != token.MUL {
+				return
+			}
+			if a, ok := x.X.(*ssa.IndexAddr); ok && a.X == ssa.Value(p) {
+				if kk, isKK := constInt(a.Index); isKK && kk == k {
+					cands = append(cands, x)
+				}
+			}
+		case ssa.CallInstruction:
+			if b := calleeOf(x).Builtin; b == "len" || b == "cap" {
+				return
+			}
+			for _, a := range x.Common().Args {
+				if a == ssa.Value(p) && instrDominates(in, u) {
+					clean = false // the callee may have written the elements before this load
+				}
+			}
+		}
+	})
+	// the representative: the load that dominates this one and is dominated by no other candidate
+	for _, cd := range cands {
+		if cd == u || !instrDominates(cd, u) {
+			continue
+		}
+		if rep == nil || instrDominates(cd, rep) {
+			rep = cd
+		}
+	}
+	if !clean || rep == nil {
+		return v
+	}
+	return rep
+}
+
 func (c *fnCtx) linLen(v ssa.Value) Lin {
+	v = c.canonLoad(v)
 	if l, ok := c.lenMemo[v]; ok {
 		return l
 	}
